@@ -20,7 +20,7 @@ Open Scope Z_scope.
 
 Section Search.
 Variable code : nat -> list qinstr.
-Variables (kind maxsize : Z) (scripts : list (list qcall)).
+Variables (kind maxsize : Z) (scripts : list (list qcall)) (own : list nat).
 
 (* the choices enabled in g, in the order harness/detsched.Scheduler.options lists them *)
 Definition qenabled (g : qsys) : list (nat * bool) :=
@@ -30,27 +30,31 @@ Definition qenabled (g : qsys) : list (nat * bool) :=
            (seq 0 (length (qthr g))).
 
 (* what thread t is parked on: -1 finished / dormant, 100 the pipe, else the semaphore id *)
-Definition qpend (g : qsys) (t : qthread) : Z :=
+Definition qpend (g : qsys) (it : nat * qthread) : Z :=
+  let '(i, t) := it in
   if qfin t || qexited code t then -1
-  else if qfeeder t && negb (started (nth (qproc t) (procs g) dps)) then -1
+  else if qdormant g i t then -1
   else match nth_error (code (qcid t)) (qpc t) with
        | Some (QAcq s _ _ _) | Some (QRel s) | Some (QIsZero s _) => Z.of_nat (sid (qproc t) s)
        | Some (QSend _) | Some (QRecv _) | Some (QPoll _ _) => 100
        | Some (QClock _) => 101
+       | Some QStartThread => 102
        | _ => -1
        end.
 
+Definition indexed {A} (l : list A) : list (nat * A) := combine (seq 0 (length l)) l.
+
 Definition qquiet (g : qsys) : bool :=
-  forallb (fun t => qfin t || qexited code t || (qfeeder t && negb (started (nth (qproc t) (procs g) dps)))) (qthr g).
+  forallb (fun it : nat * qthread => let '(i, t) := it in qfin t || qexited code t || qdormant g i t) (indexed (qthr g)).
 
 (* the observation of a finished run, from the model state and the (reversed) logs *)
 Definition qleaf_obs (g : qsys) (res : list event) (rks : list nat) : qobserved :=
   (rev res, rev rks, map (fun t => rev (map snd (qresults t))) (qthr g), map (fun t => qfin t || qexited code t) (qthr g),
-   map val (qsems g), pipe g, map buf (procs g), map (qpend g) (qthr g),
+   map val (qsems g), pipe g, map buf (procs g), map (qpend g) (indexed (qthr g)),
    if qquiet g then 0 else 1).
 
 Definition qleaf_bad (g : qsys) (res : list event) (rks : list nat) : bool :=
-  negb (qmonitors kind maxsize scripts (qleaf_obs g res rks)).
+  negb (qmonitors kind maxsize scripts own (qleaf_obs g res rks)).
 
 Definition callidx_of (g : qsys) (i : nat) : nat :=
   match nth_error (qthr g) i with Some t => length (qresults t) | None => O end.
@@ -101,13 +105,13 @@ Fixpoint qsearch (fuel K : nat) (sel : list (nat * nat)) (g : qsys) (cur : optio
 End Search.
 
 (* one search job: program table, FEED id and world constructor of that table, the
-   configuration, the preemption bound, the shard selector.  Result: (#leaves, 1 if a failing
+   configuration (scripts per pair, process of each pair), the preemption bound, the shard selector.  Result: (#leaves, 1 if a failing
    schedule was found, the schedule as 2 * thread + go). *)
 Definition qsearch_job (code : nat -> list qinstr) (FEEDid : nat) (world : Z -> list sem)
-           (kind maxsize : Z) (scripts : list (list qcall)) (K fuel : nat) (sel : list (nat * nat))
+           (kind maxsize : Z) (scripts : list (list qcall)) (own : list nat) (K fuel : nat) (sel : list (nat * nat))
   : Z * Z * list Z :=
-  let g0 := qinit_sys code FEEDid (world maxsize ++ proc_sems (length scripts)) scripts in
-  let '(n, r) := qsearch code kind maxsize scripts fuel K sel g0 None 0 [] [] [] in
+  let g0 := qinit_sys code FEEDid (world maxsize ++ proc_sems (length scripts)) own scripts in
+  let '(n, r) := qsearch code kind maxsize scripts own fuel K sel g0 None 0 [] [] [] in
   match r with
   | Some s => (Z.of_nat n, 1, map (fun x : nat * bool => 2 * Z.of_nat (fst x) + (if snd x then 1 else 0)) s)
   | None => (Z.of_nat n, 0, [])
